@@ -78,6 +78,8 @@ class Report:
         self.obls = []
         self.units = {}             # unit -> {'vcs': n, 'paths': n, 'wall': s}
         CURRENT[0] = self
+        self._seen = set()
+        self.filtered_units = set()       # units run so far with a clause filter only (the dependency layer completes them)
         self.errors = []            # (unit, kind, message)   -> undecided / fault
         self.bounded = []           # bounded stand-ins: dicts, never counted as proved
         self.unit_bounded = {}      # unit -> {'tried', 'bound', 'violations'} for units whose bounded stand-in ran
@@ -115,6 +117,10 @@ class Report:
             for v in r['verdicts']:
                 if clause_filter and not clause_filter(v['obligation']):
                     continue
+                key = (unit, v['obligation'], tuple(map(str, v.get('path') or ())))
+                if key in self._seen:
+                    continue            # the same VC of the same unit, already recorded by an earlier (narrower) run of this check
+                self._seen.add(key)
                 verdict = {'unsat': 'proved', 'sat': 'failed', 'disagree': 'disagree'}.get(v['verdict'], 'unknown')
                 self.obls.append(Obligation(unit, v['obligation'], 'smt', verdict, v.get('solver', ''), v.get('time_s', 0),
                                             detail={'model': v.get('model'), 'src': r.get('src'), 'cfg': r.get('cfg')} if verdict != 'proved' else None,
